@@ -5,7 +5,8 @@ import UF.Gen.Facts
   Model of rules/host.go (`splitNextByWhitespace`, `NewHostRule`, `HostRule.Match`) and of the
   tests `NewRule` (rules/rule.go) applies before it tries the hosts syntax: `isComment` and
   `isCosmetic` = `findCosmeticRuleMarker ≠ -1` (rules/cosmetic.go, with the preceding-blank
-  exemption for space OR tab -- the code after the D11 repair 4d469a1).
+  exemption for space OR tab -- the code after the D11 repair 4d469a1 -- and the
+  `inHostsComment` exemption of the D16 repair d2e67f2).
 
   `filterutil.IsDomainName` is the model of work group E (`UF/Model/DomainName.lean`); here it is a
   parameter `dn : Bytes → Bool`.  `netip.ParseAddr` is `ext.parseAddr`.
@@ -114,8 +115,18 @@ def isCommentLine (line : Bytes) : Bool :=
       else !(Facts.H.cosmeticMarkers.any fun m => startsAtIndexWith line 0 m)
     else false
 
+/-- `inHostsComment ruleText idx` (rules/cosmetic.go, repair of D16, commit d2e67f2):
+    `commentIdx := strings.IndexByte(ruleText, '#'); return commentIdx > 0 && commentIdx < idx`
+    (`-1` = not found fails the first test). -/
+def inHostsComment (ruleText : Bytes) (idx : Nat) : Bool :=
+  match indexByte ruleText (ch '#') with
+  | some c => decide (c > 0) && decide (c < idx)
+  | none => false
+
 /-- `findCosmeticRuleMarker`: `(index, marker)` or `none` for -1.  The outer loop runs over the
-    marker first characters, the inner one over the markers, both in their run-time order. -/
+    marker first characters, the inner one over the markers, both in their run-time order.  A first
+    occurrence is skipped when a blank precedes it (D11) or when it lies after the first '#' of the
+    line (`inHostsComment`, D16). -/
 def findCosmeticRuleMarkerWith (firstChars : List UInt8) (markers : List Bytes) (ruleText : Bytes) :
     Option (Nat × Bytes) :=
   match firstChars with
@@ -127,6 +138,8 @@ def findCosmeticRuleMarkerWith (firstChars : List UInt8) (markers : List Bytes) 
       if startIndex > 0 &&
           (ruleText[startIndex - 1]? == some (ch ' ') || ruleText[startIndex - 1]? == some (ch '\t')) then
         findCosmeticRuleMarkerWith more markers ruleText
+      else if inHostsComment ruleText startIndex then
+        findCosmeticRuleMarkerWith more markers ruleText
       else
         match markers.find? (fun m => startsAtIndexWith ruleText startIndex m) with
         | some m => some (startIndex, m)
@@ -134,6 +147,28 @@ def findCosmeticRuleMarkerWith (firstChars : List UInt8) (markers : List Bytes) 
 
 def findCosmeticRuleMarker (ruleText : Bytes) : Option (Nat × Bytes) :=
   findCosmeticRuleMarkerWith Facts.H.cosmeticMarkerFirstChars Facts.H.cosmeticMarkers ruleText
+
+/-- The marker search BEFORE the repair of D16 (no `inHostsComment` test): a `$$` / `$@$` anywhere
+    after the comment sign made a hosts line "cosmetic".  Kept only as the negation witness of
+    Props/C18. -/
+def findCosmeticRuleMarkerWithOld (firstChars : List UInt8) (markers : List Bytes) (ruleText : Bytes) :
+    Option (Nat × Bytes) :=
+  match firstChars with
+  | [] => none
+  | fc :: more =>
+    match indexByte ruleText fc with
+    | none => findCosmeticRuleMarkerWithOld more markers ruleText
+    | some startIndex =>
+      if startIndex > 0 &&
+          (ruleText[startIndex - 1]? == some (ch ' ') || ruleText[startIndex - 1]? == some (ch '\t')) then
+        findCosmeticRuleMarkerWithOld more markers ruleText
+      else
+        match markers.find? (fun m => startsAtIndexWith ruleText startIndex m) with
+        | some m => some (startIndex, m)
+        | none => findCosmeticRuleMarkerWithOld more markers ruleText
+
+def findCosmeticRuleMarkerOld (ruleText : Bytes) : Option (Nat × Bytes) :=
+  findCosmeticRuleMarkerWithOld Facts.H.cosmeticMarkerFirstChars Facts.H.cosmeticMarkers ruleText
 
 /-- `isCosmetic`. -/
 def isCosmeticLine (line : Bytes) : Bool := (findCosmeticRuleMarker line).isSome
